@@ -694,6 +694,38 @@ class Interp:
         info["handle"] = h
         h.remove_child_interface(name=s.name(ch))
 
+    def op_stale_call(self, op, s, info):
+        """a building call made through a handle whose element has been removed from the model since (C09 fault)"""
+        from fim.user.node import Node
+        from fim.user.network_service import NetworkService
+        from fim.user.interface import Interface
+        from fim.slivers.network_service import ServiceType
+        from fim.slivers.interface_info import InterfaceType
+        from fim.slivers.component_catalog import ComponentModelType
+        gone = sorted(i for i in self.handles if i not in s.nodes)
+        if not gone:
+            raise Skip()
+        h = self.handles[gone[op["k"] % len(gone)]]
+        info.update(stale=h.node_id)
+        if isinstance(h, NetworkService):
+            if op.get("what") == "add_interface":
+                h.add_interface(name=self.fresh("if"), node_id=self.id_of(None, s, force=True), itype=InterfaceType.TrunkPort)
+            else:
+                cp = self.pick(self.free_cps(s), op.get("if", 0))
+                h.connect_interface(self.handle(cp, s, 1))
+        elif isinstance(h, Node):
+            if op.get("what") == "node_service":
+                h.add_network_service(name=self.fresh("nns"), node_id=self.id_of(None, s, force=True),
+                                      nstype=ServiceType.MPLS)
+            else:
+                h.add_component(name=self.fresh("c"), node_id=self.id_of(None, s, force=True),
+                                model_type=ComponentModelType.GPU_Tesla_T4)
+        elif isinstance(h, Interface):
+            h.add_child_interface(name=self.fresh("sub"), node_id=self.id_of(None, s, force=True),
+                                  labels=mk_value("labels", {"vlan": "777"}))
+        else:
+            raise Skip()
+
     # ---- removal ops
     def op_remove_node(self, op, s, info):
         n = self.pick([x for x in s.ids(CLS_NODE) if s.typ(x) != "Facility"], op["k"])
